@@ -494,15 +494,16 @@ Section Bridge.
     assert (Hl : refines (filterM (fun x => t <- F x ;; Ok (Some t)) l) (mapR G l)).
     { induction l as [|a t IH]; [apply refines_refl|].
       cbn [filterM mapR].
-      change (match G a with Ok y => match mapR G t with Ok ys => Ok (y :: ys) | Raise e0 => Raise e0 end | Raise e0 => Raise e0 end)
-        with (y <- G a ;; ys <- mapR G t ;; Ok (y :: ys)).
       assert (Ha : refines (F a) (G a)) by (apply H; left; reflexivity).
+      assert (IHt : refines (filterM (fun x => t <- F x ;; Ok (Some t)) t) (mapR G t)) by (apply IH; intros z Hz; apply H; right; exact Hz).
       destruct Ha as [Ha|[Ha|Ha]].
       - rewrite Ha. left; reflexivity.
       - destruct Ha as (x & Hx & Hm). rewrite Hx. right; left. exists x. split; [reflexivity|exact Hm].
       - rewrite Ha. destruct (G a) as [y|x]; cbn [bind]; [|apply refines_refl].
-        apply refines_bind; [apply IH; intros z Hz; apply H; right; exact Hz|].
-        intros ys _ _. apply refines_refl. }
+        destruct IHt as [IHt|[IHt|IHt]].
+        + rewrite IHt. left; reflexivity.
+        + destruct IHt as (x & Hx & Hm). rewrite Hx. right; left. exists x. split; [reflexivity|exact Hm].
+        + rewrite IHt. destruct (mapR G t); apply refines_refl. }
     apply refines_bind; [exact Hl|]. intros r _ _. apply refines_refl.
   Qed.
 
